@@ -13,19 +13,19 @@ variable {σ : Type}
 
 /-! ### a document: tables, then references -/
 
-def ColForm.docTailR (F : ColForm σ) : List (FSpec σ) → List RText → Str
+def ColForm.docTailR (F : ColForm σ) : List (FTab σ) → List RText → Str
   | [], rs => refsTail rs
-  | t :: ts, rs => '\n' :: '\n' :: F.tableTextP t.1 t.2 (F.docTailR ts rs)
+  | t :: ts, rs => '\n' :: '\n' :: F.tabTextP t (F.docTailR ts rs)
 
-def ColForm.afterR (F : ColForm σ) : List (FSpec σ) → List RText → Str
+def ColForm.afterR (F : ColForm σ) : List (FTab σ) → List RText → Str
   | [], rs => refsAfter rs
-  | t :: ts, rs => '\n' :: F.tableTextP t.1 t.2 (F.docTailR ts rs)
+  | t :: ts, rs => '\n' :: F.tabTextP t (F.docTailR ts rs)
 
-def ColForm.docTextR (F : ColForm σ) : List (FSpec σ) → List RText → Str
+def ColForm.docTextR (F : ColForm σ) : List (FTab σ) → List RText → Str
   | [], _ => []
-  | t :: ts, rs => F.tableTextP t.1 t.2 (F.docTailR ts rs)
+  | t :: ts, rs => F.tabTextP t (F.docTailR ts rs)
 
-theorem ColForm.docTailR_cases (F : ColForm σ) (ts : List (FSpec σ)) (rs : List RText) :
+theorem ColForm.docTailR_cases (F : ColForm σ) (ts : List (FTab σ)) (rs : List RText) :
     (ts = [] ∧ rs = [] ∧ F.docTailR ts rs = []) ∨ F.docTailR ts rs = '\n' :: F.afterR ts rs := by
   cases ts with
   | nil =>
@@ -34,7 +34,7 @@ theorem ColForm.docTailR_cases (F : ColForm σ) (ts : List (FSpec σ)) (rs : Lis
     | cons r t => right; simp [ColForm.docTailR, ColForm.afterR, refsTail, refsAfter]
   | cons t r => right; simp [ColForm.docTailR, ColForm.afterR]
 
-theorem ColForm.endRule_afterR (F : ColForm σ) (ts : List (FSpec σ)) (rs : List RText) (c7 : Cur)
+theorem ColForm.endRule_afterR (F : ColForm σ) (ts : List (FTab σ)) (rs : List RText) (c7 : Cur)
     (hr7 : c7.rest = F.docTailR ts rs) (hp7 : c7.pastEnd = false) :
     ∃ c9, endRule c7 = .ok () c9 ∧ c9.rest = F.afterR ts rs ∧ c9.pastEnd = (ts.isEmpty && rs.isEmpty) := by
   rcases F.docTailR_cases ts rs with ⟨h1, h2, h3⟩ | h
@@ -51,38 +51,39 @@ theorem ColForm.endRule_afterR (F : ColForm σ) (ts : List (FSpec σ)) (rs : Lis
       | cons r t => simp
     | cons t' r' => simp
 
-theorem ColForm.element_table_afterR (F : ColForm σ) (ap : Bool) (c : Cur) (t : FSpec σ) (ts : List (FSpec σ))
+theorem ColForm.element_table_afterR (F : ColForm σ) (ap : Bool) (c : Cur) (t : FTab σ) (ts : List (FTab σ))
     (rs : List RText) (ht : F.specOK ap t) (hc : c.rest = F.afterR (t :: ts) rs) (hp : c.pastEnd = false) :
     ∃ c9, element ap c = .ok (F.mkElem t) c9 ∧ c9.rest = F.afterR ts rs ∧ c9.pastEnd = (ts.isEmpty && rs.isEmpty) := by
-  obtain ⟨c0, hb, hr0, hp0, hpv0⟩ := cBefore_nl c (F.tableTextP t.1 t.2 (F.docTailR ts rs)) (by rw [hc]; rfl) hp
-    (fun d hd _ => F.quiet_tableTextP _ _ _ d hd)
-  obtain ⟨c9, hrule, hQ⟩ := F.tableRule_okP ap c c0 t.1 t.2 (F.docTailR ts rs)
-    (fun c9 => c9.rest = F.afterR ts rs ∧ c9.pastEnd = (ts.isEmpty && rs.isEmpty)) hb hr0 hp0
-    (by intro p hpp; rw [hpv0] at hpp; cases hpp; decide) ht.1 ht.2.1 ht.2.2
+  obtain ⟨c0, hb, hr0, hp0, hpv0⟩ := cBefore_nl_comment c t.comment 'T' _ (by decide) (by decide) (by decide)
+    (show c.rest = '\n' :: (commentText t.comment ++ F.tableTextP t.name t.cols (F.docTailR ts rs)) by rw [hc]; rfl) hp ht.2.2.2
+  obtain ⟨c9, hrule, hQ⟩ := F.tableRule_okP ap c c0 t.name t.cols (F.docTailR ts rs)
+    (fun c9 => c9.rest = F.afterR ts rs ∧ c9.pastEnd = (ts.isEmpty && rs.isEmpty)) (cmList t.comment) hb hr0 hp0
+    hpv0 ht.1 ht.2.1 ht.2.2.1
     (fun c7 hr7 hp7 => F.endRule_afterR ts rs c7 hr7 hp7)
   refine ⟨c9, ?_, hQ.1, hQ.2⟩
   unfold element alt ColForm.mkElem
+  rw [joinBefore_cmList] at hrule
   simp only [bind, pbind, hrule, pure, ppure]
 
-theorem ColForm.afterR_le_docTailR (F : ColForm σ) (r : List (FSpec σ)) (rs : List RText) :
+theorem ColForm.afterR_le_docTailR (F : ColForm σ) (r : List (FTab σ)) (rs : List RText) :
     (F.afterR r rs).length ≤ (F.docTailR r rs).length := by
   rcases F.docTailR_cases r rs with ⟨h1, h2, _⟩ | h
   · subst h1; subst h2; simp [ColForm.afterR, refsAfter]
   · rw [h]; simp
 
-theorem ColForm.afterR_length (F : ColForm σ) (ts : List (FSpec σ)) (rs : List RText) :
+theorem ColForm.afterR_length (F : ColForm σ) (ts : List (FTab σ)) (rs : List RText) :
     ts.length + rs.length ≤ (F.afterR ts rs).length := by
   induction ts with
   | nil => simpa [ColForm.afterR] using refsAfter_length rs
   | cons t r ih =>
     have hd := F.afterR_le_docTailR r rs
-    have h := F.tableTextP_length t.1 t.2 (F.docTailR r rs)
-    rw [show F.afterR (t :: r) rs = '\n' :: F.tableTextP t.1 t.2 (F.docTailR r rs) from rfl]
+    have h := F.tabTextP_length t (F.docTailR r rs)
+    rw [show F.afterR (t :: r) rs = '\n' :: F.tabTextP t (F.docTailR r rs) from rfl]
     simp only [List.length_cons]
     omega
 
 theorem ColForm.many_docR (F : ColForm σ) (ap : Bool) (rs : List RText) (hrs : ∀ r ∈ rs, RTextOK r) :
-    ∀ (ts : List (FSpec σ)) (fuel : Nat) (c : Cur), ts.length + rs.length < fuel →
+    ∀ (ts : List (FTab σ)) (fuel : Nat) (c : Cur), ts.length + rs.length < fuel →
     (∀ t ∈ ts, F.specOK ap t) → c.rest = F.afterR ts rs → c.pastEnd = (ts.isEmpty && rs.isEmpty) →
     ∃ c', many (element ap) fuel c = .ok (ts.map F.mkElem ++ rs.map mkRefElem) c' ∧ c'.rest = [] ∧ c'.pastEnd = true := by
   intro ts
@@ -101,30 +102,30 @@ theorem ColForm.many_docR (F : ColForm σ) (ap : Bool) (rs : List RText) (hrs : 
     have hlen : c1.rest.length ≠ c.rest.length := by
       rw [hr1, hc]
       have hd := F.afterR_le_docTailR r rs
-      have h := F.tableTextP_length t.1 t.2 (F.docTailR r rs)
-      rw [show F.afterR (t :: r) rs = '\n' :: F.tableTextP t.1 t.2 (F.docTailR r rs) from rfl]
+      have h := F.tabTextP_length t (F.docTailR r rs)
+      rw [show F.afterR (t :: r) rs = '\n' :: F.tabTextP t (F.docTailR r rs) from rfl]
       simp only [List.length_cons]
       omega
     rw [many]
     simp only [hel, hlen, decide_false, Bool.false_and, Bool.false_eq_true, ↓reduceIte, hm, List.map_cons, List.cons_append]
 
 theorem ColForm.docTailR_no_tab (F : ColForm σ) (ap : Bool) (rs : List RText) (hrs : ∀ r ∈ rs, RTextOK r) :
-    ∀ (ts : List (FSpec σ)), (∀ t ∈ ts, F.specOK ap t) → ∀ x ∈ F.docTailR ts rs, x ≠ '\t' := by
+    ∀ (ts : List (FTab σ)), (∀ t ∈ ts, F.specOK ap t) → ∀ x ∈ F.docTailR ts rs, x ≠ '\t' := by
   intro ts
   induction ts with
   | nil => intro _ x hx; exact refsTail_no_tab rs hrs x (by simpa [ColForm.docTailR] using hx)
   | cons t r ih =>
     intro hok x hx
-    have e : F.docTailR (t :: r) rs = ['\n', '\n'] ++ F.tableText t.1 t.2 ++ F.docTailR r rs := by
-      simp [ColForm.docTailR, F.tableTextP_append]
+    have e : F.docTailR (t :: r) rs = ['\n', '\n'] ++ F.tabText t ++ F.docTailR r rs := by
+      simp [ColForm.docTailR, F.tabTextP_append]
     rw [e] at hx
     simp only [List.mem_append] at hx
     rcases hx with (h | h) | h
     · exact (by decide : ∀ c ∈ ['\n', '\n'], c ≠ '\t') x h
-    · exact F.tableText_no_tab ap t.1 t.2 (hok t (by simp)).1 (hok t (by simp)).2.1 x h
+    · exact F.tabText_no_tab ap t (hok t (by simp)) x h
     · exact ih (fun q hq => hok q (by simp [hq])) x h
 
-theorem ColForm.parseDoc_tables_refs (F : ColForm σ) (ap : Bool) (ts : List (FSpec σ)) (rs : List RText)
+theorem ColForm.parseDoc_tables_refs (F : ColForm σ) (ap : Bool) (ts : List (FTab σ)) (rs : List RText)
     (hok : ∀ t ∈ ts, F.specOK ap t) (hrs : ∀ r ∈ rs, RTextOK r) (hne : ts ≠ []) :
     ∃ c', parseDoc ap (F.docTextR ts rs) = .ok (ts.map F.mkElem ++ rs.map mkRefElem) c' := by
   obtain ⟨t, r, rfl⟩ : ∃ t r, ts = t :: r := by
@@ -134,27 +135,29 @@ theorem ColForm.parseDoc_tables_refs (F : ColForm σ) (ap : Bool) (ts : List (FS
   have ht := hok t (by simp)
   have hnotab : ∀ x ∈ F.docTextR (t :: r) rs, x ≠ '\t' := by
     intro x hx
-    have e : F.docTextR (t :: r) rs = F.tableText t.1 t.2 ++ F.docTailR r rs := by
-      simp [ColForm.docTextR, F.tableTextP_append]
+    have e : F.docTextR (t :: r) rs = F.tabText t ++ F.docTailR r rs := by
+      simp [ColForm.docTextR, F.tabTextP_append]
     rw [e] at hx
     rcases List.mem_append.mp hx with h | h
-    · exact F.tableText_no_tab ap t.1 t.2 ht.1 ht.2.1 x h
+    · exact F.tabText_no_tab ap t ht x h
     · exact F.docTailR_no_tab ap rs hrs r (fun q hq => hok q (by simp [hq])) x h
   unfold parseDoc expandTabs
   rw [expandTabsAux_plain 0 _ hnotab]
   let c0 : Cur := { rest := F.docTextR (t :: r) rs }
-  obtain ⟨q1, q2⟩ := F.quiet_tableTextP t.1 t.2 (F.docTailR r rs) c0 rfl
-  have hb : cBefore c0 = .ok [] c0 := cBefore_stay c0 q1 q2
-  obtain ⟨c1, hrule, hr1, hp1⟩ := F.tableRule_okP ap c0 c0 t.1 t.2 (F.docTailR r rs)
-    (fun c9 => c9.rest = F.afterR r rs ∧ c9.pastEnd = (r.isEmpty && rs.isEmpty)) hb rfl rfl
-    (by intro p hpp; cases hpp) ht.1 ht.2.1 ht.2.2 (fun c7 hr7 hp7 => F.endRule_afterR r rs c7 hr7 hp7)
+  obtain ⟨cb, hb, hrb, hpb, hpvb⟩ := cBefore_comment c0 t.comment 'T' _ (by decide) (by decide) (by decide)
+    (show c0.rest = commentText t.comment ++ F.tableTextP t.name t.cols (F.docTailR r rs) from rfl) rfl ht.2.2.2
+    (by intro p hpp; cases hpp)
+  obtain ⟨c1, hrule, hr1, hp1⟩ := F.tableRule_okP ap c0 cb t.name t.cols (F.docTailR r rs)
+    (fun c9 => c9.rest = F.afterR r rs ∧ c9.pastEnd = (r.isEmpty && rs.isEmpty)) (cmList t.comment) hb hrb hpb
+    hpvb ht.1 ht.2.1 ht.2.2.1 (fun c7 hr7 hp7 => F.endRule_afterR r rs c7 hr7 hp7)
   have hel : element ap c0 = .ok (F.mkElem t) c1 := by
     unfold element alt ColForm.mkElem
+    rw [joinBefore_cmList] at hrule
     simp only [bind, pbind, hrule, pure, ppure]
   have hd := F.afterR_le_docTailR r rs
   have hlen0 : (F.afterR r rs).length < (F.docTextR (t :: r) rs).length := by
-    have h := F.tableTextP_length t.1 t.2 (F.docTailR r rs)
-    rw [show F.docTextR (t :: r) rs = F.tableTextP t.1 t.2 (F.docTailR r rs) from rfl]
+    have h := F.tabTextP_length t (F.docTailR r rs)
+    rw [show F.docTextR (t :: r) rs = F.tabTextP t (F.docTailR r rs) from rfl]
     omega
   have hfuel : r.length + rs.length < c0.rest.length + 1 := by
     have := F.afterR_length r rs
@@ -180,27 +183,27 @@ theorem ColForm.parseDoc_tables_refs (F : ColForm σ) (ap : Bool) (ts : List (FS
 /-- the name a column is known by -/
 def ColForm.cname (F : ColForm σ) (s : σ) : Str := (F.col s).name
 
-def ColForm.tnameAt (_F : ColForm σ) (ts : List (FSpec σ)) (i : Nat) : Str := ((ts[i]?).map (·.1)).getD []
-def ColForm.cnameAt (F : ColForm σ) (ts : List (FSpec σ)) (i j : Nat) : Str :=
-  (((ts[i]?).bind fun t => t.2[j]?).map F.cname).getD []
+def ColForm.tnameAt (_F : ColForm σ) (ts : List (FTab σ)) (i : Nat) : Str := ((ts[i]?).map (·.name)).getD []
+def ColForm.cnameAt (F : ColForm σ) (ts : List (FTab σ)) (i j : Nat) : Str :=
+  (((ts[i]?).bind fun t => t.cols[j]?).map F.cname).getD []
 
 /-- the names a positional reference is written with -/
-def ColForm.rtext (F : ColForm σ) (ts : List (FSpec σ)) (r : RSpec) : RText :=
+def ColForm.rtext (F : ColForm σ) (ts : List (FTab σ)) (r : RSpec) : RText :=
   { kind := r.kind, t1 := F.tnameAt ts r.t1, c1 := F.cnameAt ts r.t1 r.c1, t2 := F.tnameAt ts r.t2, c2 := F.cnameAt ts r.t2 r.c2 }
 
 /-- what makes names resolvable: exactly the recorded findings are excluded -/
-structure ColForm.Resolvable (F : ColForm σ) (ts : List (FSpec σ)) : Prop where
+structure ColForm.Resolvable (F : ColForm σ) (ts : List (FTab σ)) : Prop where
   /-- table names are pairwise different -/
-  tnames : ts.Pairwise (fun a b => a.1 ≠ b.1)
+  tnames : ts.Pairwise (fun a b => a.name ≠ b.name)
   /-- no dot in a table name (KF-C01-dotted-quoted-name / alias shadowing of `schema.name` keys) -/
-  nodot : ∀ t ∈ ts, '.' ∉ t.1
+  nodot : ∀ t ∈ ts, '.' ∉ t.name
   /-- column names of one table are pairwise different (DuplicateColumnName) -/
-  cnames : ∀ t ∈ ts, t.2.Pairwise (fun a b => F.cname a ≠ F.cname b)
+  cnames : ∀ t ∈ ts, t.cols.Pairwise (fun a b => F.cname a ≠ F.cname b)
   /-- a column name is one piece and survives `strip('() ')` (KF-C01-ref-column-split) -/
-  cplain : ∀ t ∈ ts, ∀ c ∈ t.2, splitComma (F.cname c) = [F.cname c] ∧ stripParenSpace (F.cname c) = F.cname c
+  cplain : ∀ t ∈ ts, ∀ c ∈ t.cols, splitComma (F.cname c) = [F.cname c] ∧ stripParenSpace (F.cname c) = F.cname c
 
-def ColForm.RSpecIn (_F : ColForm σ) (ts : List (FSpec σ)) (r : RSpec) : Prop :=
-  ∃ ta tb, ts[r.t1]? = some ta ∧ ts[r.t2]? = some tb ∧ r.c1 < ta.2.length ∧ r.c2 < tb.2.length
+def ColForm.RSpecIn (_F : ColForm σ) (ts : List (FTab σ)) (r : RSpec) : Prop :=
+  ∃ ta tb, ts[r.t1]? = some ta ∧ ts[r.t2]? = some tb ∧ r.c1 < ta.cols.length ∧ r.c2 < tb.cols.length
 
 theorem getElem_of_getElem? {α} (l : List α) (i : Nat) (a : α) (h : l[i]? = some a) : ∃ hl : i < l.length, l[i] = a := by
   have hl : i < l.length := by
@@ -211,9 +214,9 @@ theorem getElem_of_getElem? {α} (l : List α) (i : Nat) (a : α) (h : l[i]? = s
   have := List.getElem?_eq_getElem hl
   rw [this] at h; exact Option.some.inj h
 
-theorem ColForm.findKey_ok (F : ColForm σ) (ts : List (FSpec σ)) (hr : F.Resolvable ts) (i : Nat) (t : FSpec σ)
+theorem ColForm.findKey_ok (F : ColForm σ) (ts : List (FTab σ)) (hr : F.Resolvable ts) (i : Nat) (t : FTab σ)
     (hi : ts[i]? = some t) :
-    findKey (ts.map F.mkTable) t.1 = none ∧ findKey (ts.map F.mkTable) (fullName (lit "public") t.1) = some i := by
+    findKey (ts.map F.mkTable) t.name = none ∧ findKey (ts.map F.mkTable) (fullName (lit "public") t.name) = some i := by
   obtain ⟨hlen, hti⟩ := getElem_of_getElem? ts i t hi
   have htm : t ∈ ts := List.mem_of_getElem? hi
   constructor
@@ -232,7 +235,7 @@ theorem ColForm.findKey_ok (F : ColForm σ) (ts : List (FSpec σ)) (hr : F.Resol
       simp only [List.getElem?_map, List.getElem?_eq_getElem hj, Option.map_some, ColForm.mkTable, ColForm.table, Table.fullName,
         Bool.or_eq_true, beq_iff_eq] at hpj
       rcases hpj with h | h
-      · have hname : ts[j].1 = t.1 := fullName_inj _ _ h
+      · have hname : ts[j].name = t.name := fullName_inj _ _ h
         rcases Nat.lt_trichotomy j i with hlt | heq | hgt
         · have := (List.pairwise_iff_getElem.mp hr.tnames) j i hj hlen hlt
           exact absurd (by rw [hname, hti]) this
@@ -241,18 +244,18 @@ theorem ColForm.findKey_ok (F : ColForm σ) (ts : List (FSpec σ)) (hr : F.Resol
           exact absurd (by rw [hname, hti]) this
       · cases h
 
-theorem ColForm.locateTable_ok (F : ColForm σ) (ts : List (FSpec σ)) (hr : F.Resolvable ts) (i : Nat) (t : FSpec σ)
-    (hi : ts[i]? = some t) : locateTable (ts.map F.mkTable) (lit "public") t.1 = .ok i := by
+theorem ColForm.locateTable_ok (F : ColForm σ) (ts : List (FTab σ)) (hr : F.Resolvable ts) (i : Nat) (t : FTab σ)
+    (hi : ts[i]? = some t) : locateTable (ts.map F.mkTable) (lit "public") t.name = .ok i := by
   obtain ⟨h1, h2⟩ := F.findKey_ok ts hr i t hi
   unfold locateTable
   simp [h1, h2, pure, Except.pure]
 
-theorem ColForm.colsAt_ok (F : ColForm σ) (ts : List (FSpec σ)) (hr : F.Resolvable ts) (i j : Nat) (t : FSpec σ) (c : σ)
-    (hi : ts[i]? = some t) (hj : t.2[j]? = some c) : colsAt (ts.map F.mkTable) i (F.cname c) = .ok [j] := by
+theorem ColForm.colsAt_ok (F : ColForm σ) (ts : List (FTab σ)) (hr : F.Resolvable ts) (i j : Nat) (t : FTab σ) (c : σ)
+    (hi : ts[i]? = some t) (hj : t.cols[j]? = some c) : colsAt (ts.map F.mkTable) i (F.cname c) = .ok [j] := by
   have htm : t ∈ ts := List.mem_of_getElem? hi
-  have hcm : c ∈ t.2 := List.mem_of_getElem? hj
+  have hcm : c ∈ t.cols := List.mem_of_getElem? hj
   obtain ⟨hsplit, hstrip⟩ := hr.cplain t htm c hcm
-  obtain ⟨hjl, hcj⟩ := getElem_of_getElem? t.2 j c hj
+  obtain ⟨hjl, hcj⟩ := getElem_of_getElem? t.cols j c hj
   unfold colsAt
   simp only [List.getElem?_map, hi, Option.map_some]
   unfold locateCols
@@ -263,7 +266,7 @@ theorem ColForm.colsAt_ok (F : ColForm σ) (ts : List (FSpec σ)) (hr : F.Resolv
     apply findIdx_unique _ _ j (by simpa using hjl)
     · simp [ColForm.cname, hcj]
     · intro k hk hpk
-      have hk' : k < t.2.length := by simpa using hk
+      have hk' : k < t.cols.length := by simpa using hk
       simp only [List.getElem_map, beq_iff_eq] at hpk
       rcases Nat.lt_trichotomy k j with hlt | heq | hgt
       · have := (List.pairwise_iff_getElem.mp (hr.cnames t htm)) k j hk' hjl hlt
@@ -275,16 +278,16 @@ theorem ColForm.colsAt_ok (F : ColForm σ) (ts : List (FSpec σ)) (hr : F.Resolv
   rfl
 
 /-- **names resolve to the positions they were written from** -/
-theorem ColForm.buildRef_ok (F : ColForm σ) (ts : List (FSpec σ)) (hr : F.Resolvable ts) (r : RSpec)
+theorem ColForm.buildRef_ok (F : ColForm σ) (ts : List (FTab σ)) (hr : F.Resolvable ts) (r : RSpec)
     (hin : F.RSpecIn ts r) (db : Db) (hdb : db.tables = ts.map F.mkTable) :
     buildRef db (refBp (F.rtext ts r)) = .ok (mkRef r) := by
   obtain ⟨ta, tb, h1, h2, hc1, hc2⟩ := hin
-  have hca : ta.2[r.c1]? = some ta.2[r.c1] := List.getElem?_eq_getElem hc1
-  have hcb : tb.2[r.c2]? = some tb.2[r.c2] := List.getElem?_eq_getElem hc2
-  have e1 : F.tnameAt ts r.t1 = ta.1 := by simp [ColForm.tnameAt, h1]
-  have e2 : F.tnameAt ts r.t2 = tb.1 := by simp [ColForm.tnameAt, h2]
-  have e3 : F.cnameAt ts r.t1 r.c1 = F.cname (ta.2[r.c1]) := by simp [ColForm.cnameAt, h1, hca]
-  have e4 : F.cnameAt ts r.t2 r.c2 = F.cname (tb.2[r.c2]) := by simp [ColForm.cnameAt, h2, hcb]
+  have hca : ta.cols[r.c1]? = some ta.cols[r.c1] := List.getElem?_eq_getElem hc1
+  have hcb : tb.cols[r.c2]? = some tb.cols[r.c2] := List.getElem?_eq_getElem hc2
+  have e1 : F.tnameAt ts r.t1 = ta.name := by simp [ColForm.tnameAt, h1]
+  have e2 : F.tnameAt ts r.t2 = tb.name := by simp [ColForm.tnameAt, h2]
+  have e3 : F.cnameAt ts r.t1 r.c1 = F.cname (ta.cols[r.c1]) := by simp [ColForm.cnameAt, h1, hca]
+  have e4 : F.cnameAt ts r.t2 r.c2 = F.cname (tb.cols[r.c2]) := by simp [ColForm.cnameAt, h2, hcb]
   unfold buildRef
   simp only [refBp, ColForm.rtext, hdb, e1, e2, e3, e4, F.locateTable_ok ts hr r.t1 ta h1, F.locateTable_ok ts hr r.t2 tb h2,
     F.colsAt_ok ts hr r.t1 r.c1 ta _ h1 hca, F.colsAt_ok ts hr r.t2 r.c2 tb _ h2 hcb, bind, Except.bind, pure, Except.pure]
@@ -292,9 +295,9 @@ theorem ColForm.buildRef_ok (F : ColForm σ) (ts : List (FSpec σ)) (hr : F.Reso
 
 /-! ### duplicates: two written references are equal only when they are the same -/
 
-theorem ColForm.colEq_ok (F : ColForm σ) (ts : List (FSpec σ)) (hr : F.Resolvable ts) (db : Db)
-    (hdb : db.tables = ts.map F.mkTable) (ti ci tj cj : Nat) (ta tb : FSpec σ) (hi : ts[ti]? = some ta)
-    (hj : ts[tj]? = some tb) (hci : ci < ta.2.length) (hcj : cj < tb.2.length)
+theorem ColForm.colEq_ok (F : ColForm σ) (ts : List (FTab σ)) (hr : F.Resolvable ts) (db : Db)
+    (hdb : db.tables = ts.map F.mkTable) (ti ci tj cj : Nat) (ta tb : FTab σ) (hi : ts[ti]? = some ta)
+    (hj : ts[tj]? = some tb) (hci : ci < ta.cols.length) (hcj : cj < tb.cols.length)
     (h : Dbml.colEq db ti ci tj cj = true) : ti = tj ∧ ci = cj := by
   unfold Dbml.colEq at h
   simp only [Bool.or_eq_true, Bool.and_eq_true, beq_iff_eq] at h
@@ -305,7 +308,7 @@ theorem ColForm.colEq_ok (F : ColForm σ) (ts : List (FSpec σ)) (hr : F.Resolva
     obtain ⟨hfn, hcols⟩ := h
     obtain ⟨hil, hta⟩ := getElem_of_getElem? ts ti ta hi
     obtain ⟨hjl, htb⟩ := getElem_of_getElem? ts tj tb hj
-    have hname : ta.1 = tb.1 := by
+    have hname : ta.name = tb.name := by
       simp only [ColForm.mkTable, ColForm.table, Table.fullName] at hfn
       exact fullName_inj _ _ hfn
     have htt : ti = tj := by
@@ -319,14 +322,14 @@ theorem ColForm.colEq_ok (F : ColForm σ) (ts : List (FSpec σ)) (hr : F.Resolva
     refine ⟨rfl, ?_⟩
     simp only [ColForm.mkTable, ColForm.table, List.getElem?_map, List.getElem?_eq_getElem hci, List.getElem?_eq_getElem hcj,
       Option.map_some, beq_iff_eq] at hcols
-    have hcn : F.cname (ta.2[ci]) = F.cname (ta.2[cj]) := congrArg Column.name hcols
+    have hcn : F.cname (ta.cols[ci]) = F.cname (ta.cols[cj]) := congrArg Column.name hcols
     have htm : ta ∈ ts := List.mem_of_getElem? hi
     rcases Nat.lt_trichotomy ci cj with hlt | heq | hgt
     · exact absurd hcn ((List.pairwise_iff_getElem.mp (hr.cnames ta htm)) ci cj hci hcj hlt)
     · exact heq
     · exact absurd hcn.symm ((List.pairwise_iff_getElem.mp (hr.cnames ta htm)) cj ci hcj hci hgt)
 
-theorem ColForm.refEq_ok (F : ColForm σ) (ts : List (FSpec σ)) (hr : F.Resolvable ts) (db : Db)
+theorem ColForm.refEq_ok (F : ColForm σ) (ts : List (FTab σ)) (hr : F.Resolvable ts) (db : Db)
     (hdb : db.tables = ts.map F.mkTable) (r m : RSpec) (hr1 : F.RSpecIn ts r) (hm1 : F.RSpecIn ts m)
     (h : refEq db (mkRef r) (mkRef m) = true) : r = m := by
   obtain ⟨ra, rb, h1, h2, h3, h4⟩ := hr1
@@ -340,7 +343,7 @@ theorem ColForm.refEq_ok (F : ColForm σ) (ts : List (FSpec σ)) (hr : F.Resolva
   cases r; cases m
   simp_all
 
-theorem ColForm.foldlM_refs (F : ColForm σ) (ts : List (FSpec σ)) (hr : F.Resolvable ts) (db1 : Db)
+theorem ColForm.foldlM_refs (F : ColForm σ) (ts : List (FTab σ)) (hr : F.Resolvable ts) (db1 : Db)
     (hdb : db1.tables = ts.map F.mkTable) :
     ∀ (todo done : List RSpec), (∀ r ∈ done ++ todo, F.RSpecIn ts r) → (done ++ todo).Nodup →
     (todo.map fun r => refBp (F.rtext ts r)).foldlM (refStep db1) (done.map mkRef) = .ok ((done ++ todo).map mkRef) := by
@@ -372,7 +375,7 @@ theorem ColForm.foldlM_refs (F : ColForm σ) (ts : List (FSpec σ)) (hr : F.Reso
 
 /-! ### the database that is built -/
 
-def ColForm.mkDb (F : ColForm σ) (ap : Bool) (ts : List (FSpec σ)) (rs : List RSpec) : Db :=
+def ColForm.mkDb (F : ColForm σ) (ap : Bool) (ts : List (FTab σ)) (rs : List RSpec) : Db :=
   { tables := ts.map F.mkTable, refs := rs.map mkRef, allowProps := ap }
 
 theorem refBlueprints_append (a b : List Bp.Elem) : refBlueprints (a ++ b) = refBlueprints a ++ refBlueprints b := by
@@ -386,10 +389,10 @@ theorem refBlueprints_refElems (l : List RText) : refBlueprints (l.map mkRefElem
     rw [ih]
     rfl
 
-theorem ColForm.build_tables_refs (F : ColForm σ) (ap : Bool) (ts : List (FSpec σ)) (rs : List RSpec)
-    (hr : F.Resolvable ts) (hok : ∀ t ∈ ts, F.allOK ap t.2) (hin : ∀ r ∈ rs, F.RSpecIn ts r) (hnd : rs.Nodup) :
+theorem ColForm.build_tables_refs (F : ColForm σ) (ap : Bool) (ts : List (FTab σ)) (rs : List RSpec)
+    (hr : F.Resolvable ts) (hok : ∀ t ∈ ts, F.allOK ap t.cols) (hin : ∀ r ∈ rs, F.RSpecIn ts r) (hnd : rs.Nodup) :
     buildDatabase ap (ts.map F.mkElem ++ (rs.map (F.rtext ts)).map mkRefElem) = .ok (F.mkDb ap ts rs) := by
-  have hT : tableBps (ts.map F.mkElem ++ (rs.map (F.rtext ts)).map mkRefElem) = ts.map fun t => F.tableBp t.1 t.2 := by
+  have hT : tableBps (ts.map F.mkElem ++ (rs.map (F.rtext ts)).map mkRefElem) = ts.map fun t => F.tableBpC t.name t.cols t.comment := by
     simp [tableBps, ColForm.mkElem, mkRefElem, List.filterMap_append, List.filterMap_map, Function.comp_def]
   have hE : enumBps (ts.map F.mkElem ++ (rs.map (F.rtext ts)).map mkRefElem) = [] := by
     simp [enumBps, ColForm.mkElem, mkRefElem, List.filterMap_append, List.filterMap_map, Function.comp_def]
@@ -403,7 +406,7 @@ theorem ColForm.build_tables_refs (F : ColForm σ) (ap : Bool) (ts : List (FSpec
     have h1 : refBlueprints (ts.map F.mkElem) = [] := by
       simp only [refBlueprints, ColForm.mkElem, List.flatMap_map, List.flatMap_eq_nil_iff]
       intro t _
-      simp only [ColForm.tableBp, List.flatMap_eq_nil_iff]
+      simp only [ColForm.tableBpC, List.flatMap_eq_nil_iff]
       intro b hb
       obtain ⟨s, _, rfl⟩ := List.mem_map.mp hb
       simp [F.norefs]
@@ -421,18 +424,18 @@ theorem ColForm.build_tables_refs (F : ColForm σ) (ap : Bool) (ts : List (FSpec
 
 /-! ### the rendering of tables and references -/
 
-theorem ColForm.renderRef_ok (F : ColForm σ) (ap : Bool) (ts : List (FSpec σ)) (rs : List RSpec) (r : RSpec)
+theorem ColForm.renderRef_ok (F : ColForm σ) (ap : Bool) (ts : List (FTab σ)) (rs : List RSpec) (r : RSpec)
     (hin : F.RSpecIn ts r) : Dbml.renderRef (F.mkDb ap ts rs) (mkRef r) = .ok (refText (F.rtext ts r)) := by
   obtain ⟨ta, tb, h1, h2, hc1, hc2⟩ := hin
-  have hca : ta.2[r.c1]? = some ta.2[r.c1] := List.getElem?_eq_getElem hc1
-  have hcb : tb.2[r.c2]? = some tb.2[r.c2] := List.getElem?_eq_getElem hc2
+  have hca : ta.cols[r.c1]? = some ta.cols[r.c1] := List.getElem?_eq_getElem hc1
+  have hcb : tb.cols[r.c2]? = some tb.cols[r.c2] := List.getElem?_eq_getElem hc2
   have g1 : getD? (F.mkDb ap ts rs).tables r.t1 "ref table position" = .ok (F.mkTable ta) := by
     simp [getD?, ColForm.mkDb, List.getElem?_map, h1]
   have g2 : getD? (F.mkDb ap ts rs).tables r.t2 "ref table position" = .ok (F.mkTable tb) := by
     simp [getD?, ColForm.mkDb, List.getElem?_map, h2]
-  have k1 : Dbml.renderCols (F.mkTable ta) [r.c1] = .ok ('"' :: (F.cname (ta.2[r.c1]) ++ ['"'])) := by
+  have k1 : Dbml.renderCols (F.mkTable ta) [r.c1] = .ok ('"' :: (F.cname (ta.cols[r.c1]) ++ ['"'])) := by
     simp [Dbml.renderCols, getD?, ColForm.mkTable, ColForm.table, ColForm.cname, List.getElem?_map, hca, bind, Except.bind, pure, Except.pure]
-  have k2 : Dbml.renderCols (F.mkTable tb) [r.c2] = .ok ('"' :: (F.cname (tb.2[r.c2]) ++ ['"'])) := by
+  have k2 : Dbml.renderCols (F.mkTable tb) [r.c2] = .ok ('"' :: (F.cname (tb.cols[r.c2]) ++ ['"'])) := by
     simp [Dbml.renderCols, getD?, ColForm.mkTable, ColForm.table, ColForm.cname, List.getElem?_map, hcb, bind, Except.bind, pure, Except.pure]
   unfold Dbml.renderRef
   have hinl : (mkRef r).inline = false := by simp [mkRef, Ref.inline]
@@ -447,20 +450,20 @@ theorem ColForm.renderRef_ok (F : ColForm σ) (ap : Bool) (ts : List (FSpec σ))
     qualName, ColForm.mkTable, ColForm.table, lit]
 
 theorem ColForm.docTailR_eq (F : ColForm σ) (rs : List RText) :
-    ∀ (ts : List (FSpec σ)), F.docTailR ts rs = F.docTail ts ++ refsTail rs := by
+    ∀ (ts : List (FTab σ)), F.docTailR ts rs = F.docTail ts ++ refsTail rs := by
   intro ts
   induction ts with
   | nil => simp [ColForm.docTailR, ColForm.docTail]
-  | cons t r ih => simp [ColForm.docTailR, ColForm.docTail, ih, F.tableTextP_append]
+  | cons t r ih => simp [ColForm.docTailR, ColForm.docTail, ih, F.tabTextP_append]
 
-theorem ColForm.docTextR_eq (F : ColForm σ) (ts : List (FSpec σ)) (rs : List RText) (hts : ts ≠ []) (hrs : rs ≠ []) :
-    joinWith (lit "\n\n") ((ts.map fun t => F.tableText t.1 t.2) ++ rs.map refText) = F.docTextR ts rs := by
+theorem ColForm.docTextR_eq (F : ColForm σ) (ts : List (FTab σ)) (rs : List RText) (hts : ts ≠ []) (hrs : rs ≠ []) :
+    joinWith (lit "\n\n") ((ts.map fun t => F.tabText t) ++ rs.map refText) = F.docTextR ts rs := by
   rw [joinWith_append_docs _ _ (by simpa using hts) (by simpa using hrs), F.joinWith_tables, List.append_assoc, joinWith_refs rs hrs]
   cases ts with
   | nil => exact absurd rfl hts
-  | cons t r => simp [ColForm.docText, ColForm.docTextR, F.docTailR_eq, F.tableTextP_append]
+  | cons t r => simp [ColForm.docText, ColForm.docTextR, F.docTailR_eq, F.tabTextP_append]
 
-theorem ColForm.renderDb_tables_refs (F : ColForm σ) (ap : Bool) (ts : List (FSpec σ)) (rs : List RSpec)
+theorem ColForm.renderDb_tables_refs (F : ColForm σ) (ap : Bool) (ts : List (FTab σ)) (rs : List RSpec)
     (hok : ∀ t ∈ ts, F.specOK ap t) (hin : ∀ r ∈ rs, F.RSpecIn ts r) (hts : ts ≠ []) (hrs : rs ≠ []) :
     Dbml.renderDb (F.mkDb ap ts rs) = .ok (F.docTextR ts (rs.map (F.rtext ts))) := by
   have hni : ∀ r ∈ rs.map mkRef, r.inline = false := by
@@ -468,10 +471,10 @@ theorem ColForm.renderDb_tables_refs (F : ColForm σ) (ap : Bool) (ts : List (FS
     obtain ⟨q, _, rfl⟩ := List.mem_map.mp hr
     simp [mkRef, Ref.inline]
   have htabs : (List.range (F.mkDb ap ts rs).tables.length).mapM (Dbml.renderTable (F.mkDb ap ts rs))
-      = .ok (ts.map fun t => F.tableText t.1 t.2) := by
-    have := range_mapM_form F.mkTable "table position" (fun t => F.tableText t.1 t.2) ts
+      = .ok (ts.map fun t => F.tabText t) := by
+    have := range_mapM_form F.mkTable "table position" (fun t => F.tabText t) ts
       (fun i t => Dbml.renderTableBody (F.mkDb ap ts rs) i t)
-      (fun i t ht => F.renderTableBody_ok ap _ (rs.map mkRef) hni i t.1 t.2 (hok t ht).2.1 (hok t ht).2.2)
+      (fun i t ht => F.renderTableBody_ok ap _ (rs.map mkRef) hni i t.name t.cols t.comment (hok t ht).2.1 (hok t ht).2.2.1 (hok t ht).2.2.2)
     unfold Dbml.renderTable
     exact this
   have hrefs : ((F.mkDb ap ts rs).refs.filter (!·.inline)).mapM (Dbml.renderRef (F.mkDb ap ts rs))
@@ -509,8 +512,8 @@ theorem ColForm.renderDb_tables_refs (F : ColForm σ) (ap : Bool) (ts : List (FS
     standalone single-column references between their columns are rendered to DBML and parsed back to exactly the
     same database: every reference is resolved - by table name and column name - to the very positions it was
     written from. -/
-theorem form_refs_roundtrip (F : ColForm σ) (ap : Bool) (ts : List (FSpec σ)) (rs : List RSpec)
-    (hok : ∀ t ∈ ts, F.specOK ap t) (hnames : ∀ t ∈ ts, ∀ s ∈ t.2, NameOK (F.cname s)) (hts : ts ≠ [])
+theorem form_refs_roundtrip (F : ColForm σ) (ap : Bool) (ts : List (FTab σ)) (rs : List RSpec)
+    (hok : ∀ t ∈ ts, F.specOK ap t) (hnames : ∀ t ∈ ts, ∀ s ∈ t.cols, NameOK (F.cname s)) (hts : ts ≠ [])
     (hres : F.Resolvable ts) (hin : ∀ r ∈ rs, F.RSpecIn ts r) (hrs : rs ≠ []) (hnd : rs.Nodup) :
     ∃ text, Dbml.renderDb (F.mkDb ap ts rs) = .ok text ∧ Build.parse ap text = .ok (F.mkDb ap ts rs) := by
   refine ⟨F.docTextR ts (rs.map (F.rtext ts)), F.renderDb_tables_refs ap ts rs hok hin hts hrs, ?_⟩
@@ -522,8 +525,8 @@ theorem form_refs_roundtrip (F : ColForm σ) (ap : Bool) (ts : List (FSpec σ)) 
     have hmb := List.mem_of_getElem? h2
     have hta := hok ta hma
     have htb := hok tb hmb
-    have hca : ta.2[r.c1]? = some ta.2[r.c1] := List.getElem?_eq_getElem hc1
-    have hcb : tb.2[r.c2]? = some tb.2[r.c2] := List.getElem?_eq_getElem hc2
+    have hca : ta.cols[r.c1]? = some ta.cols[r.c1] := List.getElem?_eq_getElem hc1
+    have hcb : tb.cols[r.c2]? = some tb.cols[r.c2] := List.getElem?_eq_getElem hc2
     refine ⟨?_, ?_, ?_, ?_⟩
     · simpa [ColForm.rtext, ColForm.tnameAt, h1] using hta.1
     · simpa [ColForm.rtext, ColForm.cnameAt, h1, hca] using hnames ta hma _ (List.getElem_mem hc1)
@@ -534,7 +537,10 @@ theorem form_refs_roundtrip (F : ColForm σ) (ap : Bool) (ts : List (FSpec σ)) 
   have hbom : removeBom (F.docTextR ts (rs.map (F.rtext ts))) = F.docTextR ts (rs.map (F.rtext ts)) := by
     cases ts with
     | nil => exact absurd rfl hts
-    | cons t r => simp [removeBom, ColForm.docTextR, ColForm.tableTextP]
+    | cons t r =>
+      cases hcmt : t.comment with
+      | none => simp [removeBom, ColForm.docTextR, ColForm.tabTextP, ColForm.tableTextP, commentText, hcmt]
+      | some s => simp [removeBom, ColForm.docTextR, ColForm.tabTextP, commentText, hcmt]
   rw [hbom, hp]
   simp only []
   rw [F.build_tables_refs ap ts rs hres (fun t ht => (hok t ht).2.1) hin hnd]
